@@ -205,6 +205,10 @@ class HierDictDocument(DictDocument):
                   isinstance(c, self.VALID_UNICODE_SOURCES) for c in inst):
             raise ValidationError([key, inst])
 
+        elif inst is not None and issubclass(cls, ByteArray) and not \
+               isinstance(inst, self.VALID_UNICODE_SOURCES + (list, tuple)):
+            raise ValidationError([key, inst])
+
     def _from_dict_value(self, ctx, key, cls, inst, validator):
         if validator is self.SOFT_VALIDATION:
             self.validate(key, cls, inst)
